@@ -37,7 +37,7 @@ ASSUMPTIONS = [
     "fits are run with OMP_NUM_THREADS=1/GOTO_NUM_THREADS=1 under a progress watchdog (walk_descents can lose a wake-up: C12/D7)",
 ]
 TRUSTED_EXTRA = [
-    "Coq standard library real-number axioms (ClassicalDedekindReals.sig_forall_dec, sig_not_dec, FunctionalExtensionality.functional_extensionality_dep) under C10_cumsum_monotone_ieee and C10_flocq_round_laws only (Flocq 4 binary32); every other C10 theorem is closed under the global context",
+    "Coq standard library real-number axioms (ClassicalDedekindReals.sig_forall_dec, sig_not_dec, FunctionalExtensionality.functional_extensionality_dep, Classical_Prop.classic) under C10_cumsum_monotone_ieee, C10_flocq_round_laws and C10_cumsum_monotone_rd32 only (Flocq 4 binary32); every other C10 theorem is closed under the global context",
     "Flocq (IEEE754.BinarySingleNaN: Bplus_correct; Core: round_le, round_generic, generic_format_B2R)",
     "GNU ld --wrap=nnls_normal_block3 / --wrap=cholesky_solve to observe the normal systems and the NNLS solution of the real fit without changing the library",
     "tools/props/C10.py: exact solve/inverse bound (C09.solve_certified), oracle_exact.py (Cox-de Boor on python fractions)",
